@@ -363,12 +363,27 @@ func ruleC04Descend(c *Ctx) {
 			if !isCmp2 {
 				continue
 			}
-			n, isZero := constUint(cmp.Y)
+			lhs, rhs, op := cmp.X, cmp.Y, cmp.Op
+			if _, isConst := lhs.(*ssa.Const); isConst {
+				// `0 < x` is `x > 0`
+				lhs, rhs = rhs, lhs
+				switch op {
+				case token.LSS:
+					op = token.GTR
+				case token.GTR:
+					op = token.LSS
+				case token.LEQ:
+					op = token.GEQ
+				case token.GEQ:
+					op = token.LEQ
+				}
+			}
+			n, isZero := constUint(rhs)
 			if !isZero || n != 0 {
 				continue
 			}
 			var tag string
-			switch x := cmp.X.(type) {
+			switch x := lhs.(type) {
 			case *ssa.UnOp:
 				if fa, isFA := x.X.(*ssa.FieldAddr); isFA {
 					tag = nodeOfField(fieldOfAddr(fa))
@@ -379,7 +394,7 @@ func ruleC04Descend(c *Ctx) {
 			if tag != "T:max_path_length" {
 				continue
 			}
-			switch cmp.Op {
+			switch op {
 			case token.GTR, token.NEQ:
 				return true, t
 			case token.EQL, token.LEQ:
